@@ -9,8 +9,8 @@ LAKE_TARGETS = ["Moclo.Props.C01", "Moclo.Tables.Enzymes"]
 THEOREMS = ["Moclo.C01.product_is_concatenation", "Moclo.C01.structures_are_closed_forms", "Moclo.C01.module_canonical", "Moclo.C01.vector_canonical", "Moclo.C01.wellformed_assembly_succeeds"]
 RULE = ("well-formed assemblies over every supported enzyme geometry (all geometries visited each run): chain "
         "length 1-5, every plasmid carrying exactly the two sites, rotated so that the origin falls inside the "
-        "flanking structure in half of the cases, modules in random argument order; product compared (up to "
-        "rotation) with the documented formula computed by string concatenation, and its length with the sum of "
+        "flanking structure in half of the cases, modules in random argument order, a quarter with some plasmids spelt in lower case; product compared (up to "
+        "rotation and letter case) with the documented formula computed by string concatenation, and its length with the sum of "
         "the retained fragments. non-trivial = a product was returned; distinct by content")
 ASSUMPTIONS = ["targets of at least 2 nt and vector backbones of at least 2 nt (what the generic structures demand)",
                "5'-overhang single-cut enzymes with an unambiguous site (the 58 of Bio.Restriction 1.88)"]
@@ -60,4 +60,10 @@ def run(ctx):
             continue
         case, info = g
         case["info"] = info
+        if rng.random() < 0.25:
+            # soft-masked / lower-case exports of some of the plasmids: the same molecules, hence the same product
+            for e in [case["vector"]] + case["mods"]:
+                if rng.random() < 0.5:
+                    e["word"] = e["word"].lower()
+            ctx.note("mixed-case-inputs")
         ctx.guard(check_case, case)
